@@ -11,6 +11,11 @@ RULE = ('a case is one history: a list of key-down events sent through the input
         'POKE 1050,PEEK(1052), pointer POKEs (1050..1053, valid and out-of-range values) and slot POKEs (1054..1085), '
         'each history on a fresh Session and ending with a full PEEK dump and a drain; profiles: bursts to and beyond '
         'the limit, steady typing with wrap-around, clear-heavy, poke-heavy, injection; plus LINE INPUT scenarios; '
+        'plus double-byte codepages (932, 936, 949, 950; thorough also 934, 938, big5-2003, big5-hkscs): key streams '
+        'mixing ASCII (trail-range and not), lone lead bytes and lone high trail bytes entered with Alt+keypad, complete '
+        'characters typed as one key or as two Alt codes, with the Enter typed ahead and more keys behind it, consumed '
+        'through INKEY$, INPUT$, INPUT, LINE INPUT and direct Keyboard.get_fullchar / read_byte calls - a deterministic '
+        'family (each codepage x each kind of key behind a lone lead byte x reading paths) plus random streams; '
         'non-trivial = the history contains at least one key press and one read or PEEK')
 EXPLANATION = ('theorems (PcbV.Props.C37): fifo_refinement (all histories of presses, injections, reads, PEEKs and '
                'clearing POKEs deliver exactly what a queue bounded at 15 delivers), waiting_le_15, ring_mirror '
@@ -18,6 +23,11 @@ EXPLANATION = ('theorems (PcbV.Props.C37): fifo_refinement (all histories of pre
                'pointer_poke_keeps_slots, clear_poke_empties, counterexamples for the unrepaired ring_set_boundaries; '
                'correspondence: every history is run on the real interpreter and on the compiled Lean model and all '
                'INKEY$/PEEK results are compared; oracle: an independent 16-slot BIOS ring / deque reference'
+               '; DBCS: getFullchar/readAll model Keyboard.get_fullchar/read_byte, theorems fullchar_preserves_bytes, '
+               'fullchar_progress, reads_preserve_bytes, dbcs_fifo (for ANY lead/trail sets, any mixture of byte-wise and '
+               'full-character reads delivers every waiting byte exactly once, in order); direct get_fullchar/read_byte '
+               'results are compared with the model under the codepage\'s real lead/trail sets; oracle: the typed byte '
+               'stream (first 15 keystrokes) must come out unchanged through every reading path'
                '; source tie: KeyboardBuffer._ring_index, length, start, stop and the ring-full test of append are '
                'translated mechanically from the current Python AST (PcbV.Gen.Translated.kb*, gen/py2lean.py), '
                'proved equal to the model at ring length 16 (translated_kbRingIndex_eq, translated_kbLength_eq, '
@@ -28,7 +38,8 @@ TRUSTED_BASE = ['model PcbV.Model.KeyBuf is a hand transcription of keyboard.py:
                 'translator gen/py2lean.py + PcbV.PyInt (Python int semantics in Lean), validated by '
                 'vlib/translated.py against the real functions; it covers the listed functions only']
 ASSUMPTIONS = ['no function-key (F1..F12) keystrokes: their macro expansion in Keyboard._read_kybd_byte is outside the model',
-               'no input stream attached (input_streams=None), no KEY/ON KEY traps enabled, codepage 437',
+               'no input stream attached (input_streams=None), no KEY/ON KEY traps enabled; codepage 437 for the ring histories, '
+               'the listed double-byte codepages for the DBCS scenarios',
                'EventQueues.tick is set to 0 on the session object so that INKEY$ does not sleep 6 ms per call']
 
 HEAD, TAIL, SLOTS = 1050, 1052, 1054
@@ -59,6 +70,17 @@ def deadline(seconds):
             signal.alarm(remaining)
 
 
+_CODEPAGES = {}
+
+
+def codepage_table(name):
+    """The codepage dictionary as the command line would load it (cached: parsing takes 0.3 s)."""
+    if name not in _CODEPAGES:
+        from pcbasic.data import read_codepage
+        _CODEPAGES[name] = read_codepage(name)
+    return _CODEPAGES[name]
+
+
 def hexs(b):
     return ''.join('%02x' % x for x in bytearray(b)) or '-'
 
@@ -69,10 +91,13 @@ def hexs(b):
 class Impl(object):
     """One fresh interpreter session; keys travel through the interface input queue and the event cycle."""
 
-    def __init__(self):
+    def __init__(self, codepage=None):
         from pcbasic.basic.base import signals
         self.signals = signals
-        self.session = basic.new_session()
+        kw = {}
+        if codepage:
+            kw['codepage'] = codepage_table(codepage)
+        self.session = basic.new_session(**kw)
         self.session.execute(b'DEF SEG=0')
         self.impl = self.session._impl
         self.impl.queues.tick = 0
@@ -86,6 +111,19 @@ class Impl(object):
 
     def to_bytes(self, uc):
         return bytes(self.cp.unicode_to_bytes(uc))
+
+    def alt_code(self, code):
+        """Enter one byte as Alt + decimal code on the numeric keypad (down/up events through the input queue)."""
+        from pcbasic.basic.base import scancode
+        kp = [scancode.KP0, scancode.KP1, scancode.KP2, scancode.KP3, scancode.KP4,
+              scancode.KP5, scancode.KP6, scancode.KP7, scancode.KP8, scancode.KP9]
+        ev, sg, q = self.signals.Event, self.signals, self.impl.queues.inputs
+        q.put(ev(sg.KEYB_DOWN, (u'', scancode.ALT, [scancode.ALT])))
+        for d in '%d' % code:
+            q.put(ev(sg.KEYB_DOWN, (u'', kp[int(d)], [scancode.ALT])))
+            q.put(ev(sg.KEYB_UP, (kp[int(d)],)))
+        q.put(ev(sg.KEYB_UP, (scancode.ALT,)))
+        self.impl.queues.check_events()
 
     def do(self, op):
         """Execute one op; returns the output token or None."""
@@ -639,6 +677,259 @@ def line_input_scenarios(ctx, n):
             im.close()
 
 
+# ---------------------------------------------------------------------------------------------------------------
+# double-byte codepages: every byte typed is delivered exactly once, in order, through every reading path
+
+DBCS_QUICK = ['936', '932', '949', '950']
+DBCS_ALL = DBCS_QUICK + ['934', '938', 'big5-2003', 'big5-hkscs']
+NONTRAIL = u'0123456789!#$%&()*+-./;<=>?'      # below 0x40: never a trail byte
+TRAIL_ASCII = u'ABCXYZabcxyz'                      # trail bytes in every DBCS codepage shipped
+EDITOR_KEYS = [u'\0H', u'\0K', u'\0M', u'\0P', u'\0G', u'\0O']   # cursor keys: only for the byte-wise paths
+
+
+def byte_ranges(byteset):
+    v = sorted(bytearray(b''.join(byteset)))
+    out = []
+    for x in v:
+        if out and out[-1][1] == x - 1:
+            out[-1][1] = x
+        else:
+            out.append([x, x])
+    return out
+
+
+def ranges_word(r):
+    return ','.join('%d-%d' % (a, b) for a, b in r) or '-'
+
+
+def dbcs_info(name):
+    """(lead byte values, trail-only-or-not high byte values, a few complete characters typed as ONE key)."""
+    im = Impl(name)
+    try:
+        lead = sorted(bytearray(b''.join(im.cp.lead)))
+        trail = sorted(bytearray(b''.join(im.cp.trail)))
+        pairs = []
+        for l in lead[::7]:
+            for t in trail[::5]:
+                b = bytes(bytearray([l, t]))
+                try:
+                    u = im.cp.bytes_to_unicode(b)
+                except Exception:
+                    continue
+                if len(u) == 1 and im.to_bytes(u) == b:
+                    pairs.append(u)
+                    break
+        return lead, trail, pairs
+    finally:
+        im.close()
+
+
+_DBCS_INFO = {}
+
+
+def dbcs_case_gen(rng, name, path, force=None):
+    """One case of the class: a key stream mixing ASCII (trail-range and not), lone lead bytes, lone high trail
+    bytes and complete pairs (typed as one key or as two Alt codes), the Enter typed ahead, more keys behind it."""
+    if name not in _DBCS_INFO:
+        _DBCS_INFO[name] = dbcs_info(name)
+    lead, trail, pairs = _DBCS_INFO[name]
+    hi_trail = [t for t in trail if t >= 128]
+    editor = path in ('line', 'input')
+
+    def key():
+        x = rng.random()
+        if x < 0.22:
+            return ['c', rng.choice(NONTRAIL), rng.choice(SAFE_SCANS)]
+        if x < 0.37:
+            return ['c', rng.choice(TRAIL_ASCII), rng.choice(SAFE_SCANS)]
+        if x < 0.42:
+            return ['c', u' ', 57]
+        if x < 0.70:
+            return ['a', rng.choice(lead)]
+        if x < 0.82:
+            return ['a', rng.choice(hi_trail)]
+        if x < 0.92 and pairs:
+            return ['c', rng.choice(pairs), rng.choice(SAFE_SCANS)]
+        if not editor:
+            return ['c', rng.choice(EDITOR_KEYS), 72]
+        return ['c', rng.choice(NONTRAIL), rng.choice(SAFE_SCANS)]
+
+    keys = list(force) if force is not None else [key() for _ in range(rng.choice([1, 2, 3, 5, 8, 12]))]
+    keys.append(['c', u'\r', 28])
+    keys += [key() for _ in range(rng.choice([0, 1, 2, 3]))]
+    pre = rng.choice([0, 0, 1, 7, 15, 17])
+    if path == 'line':
+        plan = [['inkey', rng.choice([0, 0, 1, 2])], ['line']]
+    elif path == 'input':
+        plan = [['inkey', rng.choice([0, 0, 1])], ['input']]
+    elif path == 'bytes':
+        plan = [[rng.choice(['inkey', 'input$']), rng.choice([1, 2, 3])] for _ in range(4)]
+    else:
+        plan = [[rng.choice(['full', 'full', 'byte']), 1] for _ in range(len(keys) + 2)]
+    return {'dbcs': name, 'pre': pre, 'keys': keys, 'plan': plan, 'path': path}
+
+
+def run_dbcs_case(case, stats=None):
+    """-> (failure (key, what) or None, model line or None, implementation reply or None)"""
+    name = case['dbcs']
+    im = Impl(name)
+    direct = case['path'] == 'direct'
+    mops, rds, tokens = [], [], []
+
+    def count(tag):
+        if stats is not None:
+            stats('dbcs:' + tag)
+
+    try:
+        lead, trail = set(im.cp.lead), set(im.cp.trail)
+        for _ in range(case['pre']):
+            im.do(('k', u'q', 16))
+            im.do(('r',))
+            mops += ['k:71:16', 'r']
+        stream = []
+        for k in case['keys']:
+            if k[0] == 'a':
+                im.alt_code(k[1])
+                b = bytes(bytearray([k[1] % 256]))
+                scan = 0
+            else:
+                im.do(('k', k[1], k[2]))
+                b = im.to_bytes(k[1])
+                scan = k[2]
+            if b:
+                mops.append('k:%s:%d' % (hexs(b), scan))
+                # the statement: further keystrokes are dropped while 15 wait
+                if len(stream) < 15:
+                    stream.append(b)
+        rem = list(stream)
+        for a, b in zip(rem, rem[1:]):
+            if a in lead:
+                count('lead-then-' + ('trail' if b in trail else 'CR' if b == b'\r' else 'nontrail'))
+        if rem and rem[-1] in lead:
+            count('lead-last')
+        # the BIOS pointers show every keystroke
+        n = ((im.session.evaluate(b'PEEK(1052)') - im.session.evaluate(b'PEEK(1050)')) // 2) % 16
+        if n != len(rem):
+            return ('dbcs:mirror:count', '%d keystrokes typed (first 15 kept) but the BIOS pointers show %d waiting'
+                    % (len(rem), n)), None, None
+        for step in list(case['plan']) + [['drain', 17]]:
+            kind = step[0]
+            if kind in ('inkey', 'input$', 'drain', 'byte', 'full'):
+                for _ in range(step[1]):
+                    if kind == 'input$' and not rem:
+                        break     # would block
+                    with deadline(3):
+                        if kind == 'full':
+                            got = bytes(im.impl.keyboard.get_fullchar())
+                        elif kind == 'byte' or (kind == 'drain' and direct):
+                            got = bytes(im.impl.keyboard.read_byte())
+                        elif kind == 'input$':
+                            got = bytes(im.session.evaluate(b'INPUT$(1)'))
+                        else:
+                            got = bytes(im.session.evaluate(b'INKEY$'))
+                    if direct:
+                        rds.append('f' if kind == 'full' else 'b')
+                        tokens.append(hexs(got))
+                    count('read:' + kind)
+                    before = list(rem)
+                    if not rem:
+                        ok = got == b''
+                    elif kind == 'full' and len(rem) >= 2 and got == rem[0] + rem[1]:
+                        ok = True
+                        rem = rem[2:]
+                        count('pair-combined')
+                    else:
+                        ok = got == rem[0]
+                        rem = rem[1:]
+                    if not ok:
+                        return ('dbcs:lost-or-reordered:' + kind,
+                                '%s delivered %r while the keystrokes waiting were %r (every byte typed must be '
+                                'delivered exactly once, in order)' % (kind, got, before)), None, None
+            else:
+                if b'\r' not in rem:
+                    continue
+                i = rem.index(b'\r')
+                want = b''.join(rem[:i])
+                stmt = b'LINE INPUT A$' if kind == 'line' else b'INPUT A$'
+                try:
+                    with deadline(3):
+                        im.session.execute(stmt)
+                        got = im.session.get_variable('A$')
+                except Hang:
+                    return ('dbcs:input-blocked', '%s still waits although Enter was typed ahead (waiting keystrokes %r)'
+                            % (stmt.decode(), rem)), None, None
+                count('read:' + kind)
+                # the line editor drops trailing blanks; INPUT also strips leading blanks of an unquoted field
+                want = want.rstrip(b' ')
+                if kind == 'input':
+                    want, got = want.strip(b' '), got.strip(b' ')
+                if got != want:
+                    return ('dbcs:lost-or-reordered:' + kind,
+                            '%s delivered %r, expected %r (waiting keystrokes %r)' % (stmt.decode(), got, want, rem)), None, None
+                rem = rem[i + 1:]
+        if direct:
+            line = 'full %s %s %s %s' % (ranges_word(byte_ranges(lead)), ranges_word(byte_ranges(trail)),
+                                         ';'.join(mops) or '-', ''.join(rds) or '-')
+            return None, line, 'ok ' + (','.join(tokens) or '-')
+        return None, None, None
+    except Hang:
+        return ('dbcs:hang', 'a read did not return within 3 s'), None, None
+    finally:
+        im.close()
+
+
+def dbcs_scenarios(ctx, n_random, names):
+    """Deterministic family (each codepage x each reading path x each kind of key behind a lone lead byte)
+    plus random streams."""
+    rng = ctx.rng
+    cases = []
+    for name in names:
+        if name not in _DBCS_INFO:
+            _DBCS_INFO[name] = dbcs_info(name)
+        lead, trail, pairs = _DBCS_INFO[name]
+        hi_trail = [t for t in trail if t >= 128]
+        l1, l2, l3 = rng.choice(lead), rng.choice(lead), rng.choice(lead)
+        behind = [
+            [['c', u'1', 2], ['c', u'2', 3]],                     # not a trail byte: must stay in the buffer
+            [],                                                   # Enter directly behind the lead byte
+            [['c', u' ', 57], ['c', u'x', 45]],
+            [['c', u'A', 30], ['c', u'5', 6]],                    # trail byte: combines
+            [['a', rng.choice(hi_trail)], ['c', u';', 39]],
+            [['a', l2], ['a', l3], ['c', u'7', 8]],               # lead lead lead
+            ([['c', pairs[0], 30]] if pairs else []) + [['a', l2], ['c', u'=', 13]],
+        ]
+        paths = ['line', 'input', 'bytes', 'direct']
+        for j, b in enumerate(behind):
+            # quick tier: every kind of follower on two reading paths per codepage, rotating; thorough: all
+            for path in (paths if not ctx.quick else [paths[j % 2], paths[2 + j % 2]]):
+                front = rng.choice([[], [['c', u'1', 2]], [['c', u'a', 30], ['c', u'9', 10]]])
+                cases.append(dbcs_case_gen(rng, name, path, force=front + [['a', l1]] + b))
+    for j in range(n_random):
+        cases.append(dbcs_case_gen(rng, rng.choice(names), ['line', 'input', 'bytes', 'direct'][j % 4]))
+    mcases, mouts, mlines = [], [], []
+    nfail = 0
+    for case in cases:
+        if nfail >= 4:
+            break
+        try:
+            f, line, out = run_dbcs_case(case, ctx.count)
+        except Exception as e:
+            f, line, out = ('dbcs:exception:%s' % type(e).__name__, 'raised %s: %s' % (type(e).__name__, e)), None, None
+        ctx.case(('dbcs', repr(case)))
+        ctx.count('dbcs:codepage:' + case['dbcs'])
+        ctx.count('dbcs:path:' + case['path'])
+        if f is not None:
+            nfail += 1
+            ctx.fail(f[0], case, '%s [codepage %s, keys %r, plan %r]' % (f[1], case['dbcs'], case['keys'], case['plan']))
+        elif line is not None:
+            mcases.append(case)
+            mouts.append(out)
+            mlines.append(line)
+    ctx.compare(mcases, mouts, mlines, label='dbcs-readers')
+    if mcases:
+        ctx.sample({'dbcs': mcases[0]['dbcs'], 'keys': mcases[0]['keys'], 'impl': mouts[0]})
+
+
 def run(ctx):
     translated.check_keybuf(ctx)
     rng = ctx.rng
@@ -670,6 +961,8 @@ def run(ctx):
     if cases:
         ctx.sample({'ops': boundary_histories()[0][:4] + ['...'], 'impl': outs[0][:120]})
     line_input_scenarios(ctx, 60 if ctx.quick else 600)
+    dbcs_scenarios(ctx, 24 if ctx.quick else 1500, DBCS_QUICK if ctx.quick else DBCS_ALL)
+    ctx.log('double-byte codepage scenarios done')
     probe.close()
 
 
@@ -690,6 +983,15 @@ def replay(ctx, payload):
         m = ctx.model([line])
         if m is not None and m[0] != 'ok ' + (','.join(tokens) or '-'):
             return 'model and implementation disagree: impl %s model %s' % (','.join(tokens), m[0])
+        return None
+    if 'dbcs' in case:
+        f, line, out = run_dbcs_case(case)
+        if f is not None:
+            return f[1]
+        if line is not None:
+            m = ctx.model([line])
+            if m is not None and m[0] != out:
+                return 'model and implementation disagree: impl %s model %s' % (out, m[0])
         return None
     import random
     sub = _Sub(ctx, random.Random(payload.get('seed', 0)))
